@@ -176,9 +176,34 @@ def handle (j : Json) : Except String Json := do
     | some t => pure (jUt probeIds t)
     | none => throw "model: trace lost"
   let uts ← codes.mapM utOf
+  -- one action, a code per call: the generated mixed sequence and the proxy order
+  let mixedOps : List (Op × Nat) ← match j.getObjVal? "mixed" with
+    | .ok (.arr a) => a.toList.mapM fun o => do
+        let op ← parseOp o
+        let c ← Drv.nat? o "c"
+        pure (op, c)
+    | _ => pure []
+  let backend : Option Nat := (Drv.nat? j "backend").toOption
+  let renderC (useRef : Bool) (ops : List (Op × Nat)) (rs : List (OpResult × List RuleId)) : Json :=
+    Json.arr ((ops.zip rs).map fun (oc, r) =>
+      (renderOp useRef headers body r).setObjVal! "c" (toJson oc.2)).toArray
   let render (useRef : Bool) (a : Action) (steps : List TraceAction)
       (obs : Nat → List (OpResult × List RuleId)) : Json :=
     Json.mkObj [("action", jAction a), ("trace", jSteps steps), ("ut0", jTrace t0),
+      ("mixed",
+        if useRef then renderC true mixedOps (Spec.observeC q (Spec.contributing q lo (Spec.insertionSort rules)) allow [] mixedOps)
+        else renderC false mixedOps (runOpsC allow aLo mixedOps)),
+      ("proxy",
+        match backend with
+        | none => Json.arr #[]
+        | some b =>
+          if useRef then
+            let C := Spec.contributing q lo (Spec.insertionSort rules)
+            let ops := proxySequence (Spec.statusAt C 0).1 (Spec.statusAt C b).1 b
+            renderC true ops (Spec.observeC q C allow [] ops)
+          else
+            let ops := proxySequence (aLo.getStatusCode 0).1 ((aLo.getStatusCode 0).2.getStatusCode b).1 b
+            renderC false ops (runOpsC allow aLo ops)),
       ("codes", Json.arr ((codes.zip uts).map fun (c, ut) =>
         Json.mkObj [("c", toJson c), ("ut", ut),
           ("ops", Json.arr ((obs c).map (renderOp useRef headers body)).toArray)]).toArray)]
